@@ -25,9 +25,55 @@ def run(cmd, cwd=None, timeout=None, env=None, input=None):
     e.update({"CARGO_NET_OFFLINE": "true"})
     if env:
         e.update(env)
-    p = subprocess.run(cmd, cwd=cwd, env=e, input=input, stdout=subprocess.PIPE, stderr=subprocess.STDOUT,
-                       text=True, timeout=timeout)
+    try:
+        p = subprocess.run(cmd, cwd=cwd, env=e, input=input, stdout=subprocess.PIPE, stderr=subprocess.STDOUT,
+                           text=True, timeout=timeout)
+    except subprocess.TimeoutExpired as ex:
+        out = ex.stdout if isinstance(ex.stdout, str) else (ex.stdout or b"").decode("utf-8", "replace")
+        return 124, out + "\nTIMEOUT after %s s" % timeout
     return p.returncode, p.stdout
+
+
+def run_watched(cmd, timeout, input, progress, stall=180):
+    """Like run(), with a second watchdog: once the harness has started logging operations to
+    `progress`, a log that does not move for `stall` seconds means the current operation hangs."""
+    import tempfile
+    e = dict(os.environ)
+    e.update({"CARGO_NET_OFFLINE": "true", "VERIF_PROGRESS": progress})
+    with tempfile.TemporaryFile(mode="w+") as fout:
+        p = subprocess.Popen(cmd, env=e, stdin=subprocess.PIPE if input is not None else None, stdout=fout, stderr=subprocess.STDOUT, text=True)
+        if input is not None:
+            try:
+                p.stdin.write(input)
+                p.stdin.close()
+            except OSError:
+                pass
+        t0 = time.time()
+        why = None
+        while True:
+            try:
+                p.wait(timeout=1.0)
+                break
+            except subprocess.TimeoutExpired:
+                pass
+            now = time.time()
+            if now - t0 > timeout:
+                why = "TIMEOUT after %s s" % timeout
+            else:
+                try:
+                    if now - os.path.getmtime(progress) > stall:
+                        why = "no operation finished for %s s" % stall
+                except OSError:
+                    pass
+            if why:
+                p.kill()
+                p.wait()
+                break
+        fout.seek(0)
+        out = fout.read()
+    if why:
+        return 124, out + "\n" + why
+    return p.returncode, out
 
 
 class Ctx:
@@ -174,8 +220,29 @@ def build_harness(ctx):
     return True
 
 
-def harness(args, timeout=3600, input=None):
-    return run([HARNESS_BIN] + [str(a) for a in args], timeout=timeout, input=input)
+# a harness run that does not come back (deadlock, endless loop in the library) is killed by this
+# watchdog; the harness logs every operation before executing it (VERIF_PROGRESS), so the script
+# that hung is known
+HANGS = []
+PROGRESS = os.path.join(VERIF, "run", "progress-%d.txt" % os.getpid())
+
+
+def harness(args, timeout=None, input=None):
+    if timeout is None:
+        timeout = 4 * 3600 if os.environ.get("VERIF_TIER", "quick") == "thorough" or "--tier" in sys.argv and "thorough" in sys.argv else 1200
+    try:
+        os.remove(PROGRESS)
+    except OSError:
+        pass
+    rc, out = run_watched([HARNESS_BIN] + [str(a) for a in args], timeout, input, PROGRESS)
+    if rc == 124:
+        script = []
+        try:
+            script = open(PROGRESS).read().splitlines()
+        except OSError:
+            pass
+        HANGS.append({"args": [str(a) for a in args], "timeout": timeout, "script": script})
+    return rc, out
 
 
 def driver(args, stdin_path, stdout_path, timeout=3600):
@@ -240,6 +307,17 @@ def finish(ctx, level="proof", checker_cmd=None, extra_assumptions=()):
         print("KNOWN-FINDING: property=%s %s [%s] (%s)" % (ctx.pid, text, sig, what[:300]))
     rc = 0
     lines = []
+    for k, hg in enumerate(HANGS):
+        # the library did not return: a concrete failing input when the hanging script is known
+        path = os.path.join(ctx.replaydir, "hang_%d.txt" % k)
+        with open(path, "w") as f:
+            f.write("# %s: the harness (%s) did not return within %s s; the operations below were being executed (the last one never returned)\n"
+                    % (ctx.pid, " ".join(hg["args"][:3]), hg["timeout"]))
+            f.write("\n".join(hg["script"]) + "\n")
+        if hg["script"]:
+            ctx.violations.append({"signature": "hang", "what": "the library did not return from `%s` (script of %d operations)" % (hg["script"][-1][:80], len(hg["script"])), "replay": path})
+        else:
+            ctx.undischarged.append("the harness did not return within %s s (%s)" % (hg["timeout"], " ".join(hg["args"][:3])))
     if ctx.violations:
         rc = 1
         for v in ctx.violations:
